@@ -11,6 +11,11 @@ class ReadBudgetExceeded(BaseException):
     """The library keeps calling read() long after EOF was signalled."""
 
 
+class StickyFault(Exception):
+    """Raised by a sticky-faulted stream on every call after the injected one (a broken stream
+    stays broken); it must never be what reaches the caller."""
+
+
 class SimReader:
     """read(n) returns data[pos:pos+k]; k comes from the schedule, never more than n.
 
@@ -18,11 +23,14 @@ class SimReader:
     min(k_i, n, remaining) units; after the list is used up every call returns
     min(K, n, remaining) (K=None: as much as requested).  A size of 0 in the list
     is bumped to 1 (a 0-length piece means EOF to both readers).
-    fault = (call_index, exception_instance) raises at exactly that call.
+    fault = (call_index, exception_instance) raises at exactly that call; a callable in place of
+    the instance is called to make a fresh exception (so that the stream does not keep its own
+    traceback, and with it itself, alive).
     """
 
     def __init__(self, data, sizes=(), then=None, fault=None, log=None, name=None,
-                 seq=None, label='read'):
+                 seq=None, label='read', sticky=False):
+        self.sticky = sticky
         self.data = data
         self.sizes = list(sizes)
         self.then = then
@@ -51,7 +59,11 @@ class SimReader:
             raise ReadBudgetExceeded('read() called %d times for %d units' % (self.calls, len(self.data)))
         if self.fault is not None and self.fault[0] == i:
             self.log.append((self._stamp(), self.label, i, n, 'RAISE'))
-            raise self.fault[1]
+            exc = self.fault[1]
+            raise exc if isinstance(exc, BaseException) else exc()
+        if self.sticky and self.fault is not None and i > self.fault[0]:
+            self.log.append((self._stamp(), self.label, i, n, 'RAISE-STICKY'))
+            raise StickyFault('read() call %d after the stream failed at call %d' % (i, self.fault[0]))
         remaining = len(self.data) - self.pos
         if n is None or n < 0:
             k = remaining
@@ -78,7 +90,8 @@ class SimWriter:
     merged write+flush invocation sequence.  kind: 'text' has an `encoding`
     attribute (both emitters then write str), 'binary' has none."""
 
-    def __init__(self, kind='text', with_flush=True, fault=None, log=None, seq=None):
+    def __init__(self, kind='text', with_flush=True, fault=None, log=None, seq=None, sticky=False):
+        self.sticky = sticky
         self.pieces = []
         self.fault = fault
         self.log = log if log is not None else []
@@ -102,6 +115,9 @@ class SimWriter:
         if self.fault is not None and self.fault[0] == i:
             self.log.append((self._stamp(), 'write', i, len(data), 'RAISE'))
             raise self.fault[1]
+        if self.sticky and self.fault is not None and i > self.fault[0]:
+            self.log.append((self._stamp(), 'write', i, len(data), 'RAISE-STICKY'))
+            raise StickyFault('write() call %d after the stream failed at call %d' % (i, self.fault[0]))
         self.pieces.append(data)
         self.log.append((self._stamp(), 'write', i, len(data), 'ok'))
         return len(data)
@@ -112,6 +128,9 @@ class SimWriter:
         if self.fault is not None and self.fault[0] == i:
             self.log.append((self._stamp(), 'flush', i, 0, 'RAISE'))
             raise self.fault[1]
+        if self.sticky and self.fault is not None and i > self.fault[0]:
+            self.log.append((self._stamp(), 'flush', i, 0, 'RAISE-STICKY'))
+            raise StickyFault('flush() call %d after the stream failed at call %d' % (i, self.fault[0]))
         self.log.append((self._stamp(), 'flush', i, 0, 'ok'))
 
     def value(self):
